@@ -353,6 +353,23 @@ def one_doc(ctx, cs, i=0):
              nontrivial=bool(doc.tags & {'splits', 'joins', 'hostile_text'}))
     ctx.cls(*sorted(doc.tags))
     document_fields(ctx, case, doc, render(lines))
+    if i % 4 == 1:
+        # the same records with other line ends (CRLF, lone CR, a mix, blank lines after the last record) build the same tree
+        base_txt = render(lines)
+        d_lf, _, x_lf = kpx.loads(base_txt)
+        if x_lf is None:
+            s_lf = kpx.snapshot(d_lf)
+            recs = base_txt.split('\n')
+            for nm, txt in (('CRLF', base_txt.replace('\n', '\r\n')), ('CR', base_txt.replace('\n', '\r')),
+                            ('mixed', ''.join(r_ + ['\n', '\r\n', '\r'][k_ % 3] for k_, r_ in enumerate(recs[:-1])) + recs[-1]),
+                            ('trailing blank lines', base_txt + '\n\n\n')):
+                ctx.ev()
+                ctx.mon(f'line_end_variants:{nm}')
+                d_v, _, x_v = kpx.loads(txt)
+                if x_v is not None or kpx.snapshot(d_v) != s_lf:
+                    ctx.violation('line-ends', f'the same records with {nm} line ends '
+                                  f'{"raise " + type(x_v).__name__ + ": " + str(x_v)[:80] if x_v is not None else "build another tree"}',
+                                  dict(case, line_ends=nm))
     if i % 2 == 0:
         # other API calls between two imports (exports by measure, filtered exports, queries): the next import must not care
         d_, _, _ = kpx.loads(render(lines))
@@ -363,6 +380,24 @@ def one_doc(ctx, cs, i=0):
                 if M_:
                     kpx.dumps(d_, **kw_)
             ctx.mon('intervening_api_calls', 4)
+    if i % 5 == 2:
+        # a line whose cells are ALL made of blanks (space, two spaces, ideographic space, no-break space, form feed ...): a line like
+        # any other - one stage, one node per cell, the text kept as it is (a malformed token in a **kern spine, still a node)
+        cand = [k_ for k_, ln_ in enumerate(lines) if ln_[0] == 's' and not any(c_[:1] in ('*', '=', '!') for c_ in ln_[1])]
+        if cand:
+            k_ = rng.choice(cand)
+            blanks = [' ', '  ', '\u3000', '\xa0', '\x0c', ' \u2028', '\x1f ', '\u2003']
+            row = [rng.choice(blanks) for _ in lines[k_][1]]
+            lines2 = lines[:k_ + 1] + [('s', row)] + lines[k_ + 1:]
+            ctx.mon('all_blank_lines_inserted')
+            base_enc = doc_expected_enc(doc)
+
+            def enc2(li, col, text, k_=k_):
+                if li == k_ + 1:
+                    return None
+                return base_enc(li if li <= k_ else li - 1, col, text)
+            run_case(ctx, dict(case, kind='doc-blank-row', blank_row_after=k_, blank_row=row), lines2, doc.headers, expected_enc=enc2,
+                     nontrivial=True)
     if i % 3 == 0:
         surplus_case(ctx, case, lines, rng)
     if i == 1:
